@@ -16,6 +16,7 @@ Act == \/ IsEvent("Handshake") /\ Handshake
        \/ IsEvent("ClientCloses") /\ ClientCloses
        \/ IsEvent("AgentCloses") /\ AgentCloses
        \/ IsEvent("OperatorKills") /\ OperatorKills
+       \/ IsEvent("Wait") /\ Wait
 (* the property is the protocol itself: what both sides saw must be what the RFC-derived model says *)
 Bound == toClient' = E.res.toClient /\ toAgent' = E.res.toAgent /\ table' = E.res.table
 Seen == obs' = [toClient |-> E.res.toClient, toAgent |-> E.res.toAgent, table |-> E.res.table]
